@@ -385,6 +385,10 @@ func errnoName(e syscall.Errno) string {
 		return "EMFILE"
 	case syscall.EEXIST:
 		return "EEXIST"
+	case syscall.ENOTEMPTY:
+		return "ENOTEMPTY"
+	case syscall.EINTR:
+		return "EINTR"
 	}
 	return fmt.Sprintf("E%d", int(e))
 }
